@@ -857,6 +857,11 @@ func (bn *branchNode) getNextHashAndKey(key []byte) (bool, []byte, []byte) {
 		return false, nil, nil
 	}
 
+	// a decoded node may carry fewer children than a well-formed branch
+	if int(key[0]) >= len(bn.EncodedChildren) {
+		return false, nil, nil
+	}
+
 	wantHash := bn.EncodedChildren[key[0]]
 	nextKey := key[1:]
 
